@@ -90,9 +90,9 @@ func ixPairs(rng *rand.Rand) []ixPairDef {
 		{ixServices[0], ixServices[2], true, false}, {ixServices[2], ixServices[0], true, false}, // both directions of one pair
 		{ixServices[0], ixServices[3], true, false}, {ixServices[1], ixServices[4], true, false}, {ixServices[5], ixServices[2], true, false},
 		{ixServices[0], harness.FullID(harness.ChainB, "ghost"), false, false}, // destination service does not exist
-		{ixServices[4], harness.FullID("nochain", "s1"), false, true},        // destination chain does not exist
-		{ixServices[1], ixServices[1], true, false},                          // a service addressing itself: source and destination record are one
-		{ixServices[2], ixServices[3], true, false},                          // two services of one chain
+		{ixServices[4], harness.FullID("nochain", "s1"), false, true},          // destination chain does not exist
+		{ixServices[1], ixServices[1], true, false},                            // a service addressing itself: source and destination record are one
+		{ixServices[2], ixServices[3], true, false},                            // two services of one chain
 	}
 	n := 3 + rng.Intn(4)
 	rng.Shuffle(len(all), func(i, j int) { all[i], all[j] = all[j], all[i] })
